@@ -32,7 +32,10 @@ package ixkey
 //@   ensures! same: sarr(r) == sarr(s) && off(r) == off(s) && len(r) == len(s)
 
 // Encode: the escape image of s (s itself when it has no zero byte)
+// (encOf names the result for contracts of other packages that only need to say WHICH string was encoded)
+//@ spec encOf(s string) string
 //@ func Encode(s) (r)
+//@   defines sarr(r) == sarr(encOf(s)) && off(r) == off(encOf(s)) && len(r) == len(encOf(s))
 //@   ensures! nozero: (forall k :: 0 <= k && k < len(s) ==> s[k] != 0) ==> r == s
 //@   ensures! escaped: forall k :: 0 <= k && k < len(r) && r[k] == 0 ==> k + 1 < len(r) && r[k + 1] == 1
 //@   ensures! len: len(r) >= len(s)
